@@ -965,6 +965,8 @@ class CObs:
     def __add__(self, other):
         if isinstance(other, np.ndarray):
             return other + self
+        elif other.__class__.__name__ == 'Corr':
+            return NotImplemented
         elif hasattr(other, 'real') and hasattr(other, 'imag'):
             return CObs(self.real + other.real,
                         self.imag + other.imag)
@@ -977,6 +979,8 @@ class CObs:
     def __sub__(self, other):
         if isinstance(other, np.ndarray):
             return -1 * (other - self)
+        elif other.__class__.__name__ == 'Corr':
+            return NotImplemented
         elif hasattr(other, 'real') and hasattr(other, 'imag'):
             return CObs(self.real - other.real, self.imag - other.imag)
         else:
@@ -988,6 +992,8 @@ class CObs:
     def __mul__(self, other):
         if isinstance(other, np.ndarray):
             return other * self
+        elif other.__class__.__name__ == 'Corr':
+            return NotImplemented
         elif hasattr(other, 'real') and hasattr(other, 'imag'):
             if all(isinstance(i, Obs) for i in [self.real, self.imag, other.real, other.imag]):
                 return CObs(derived_observable(lambda x, **kwargs: x[0] * x[1] - x[2] * x[3],
@@ -1010,6 +1016,8 @@ class CObs:
     def __truediv__(self, other):
         if isinstance(other, np.ndarray):
             return 1 / (other / self)
+        elif other.__class__.__name__ == 'Corr':
+            return NotImplemented
         elif hasattr(other, 'real') and hasattr(other, 'imag'):
             r = other.real ** 2 + other.imag ** 2
             return CObs((self.real * other.real + self.imag * other.imag) / r, (self.imag * other.real - self.real * other.imag) / r)
